@@ -763,80 +763,6 @@ Proof.
       rewrite N.add_assoc. reflexivity.
 Qed.
 
-(* ================================================================================================= *)
-(* the complete statement (scanner level: the scanner state abstracts the syntactic context), and    *)
-(* what is known about it                                                                            *)
-(* ================================================================================================= *)
-(* what may follow a quoted scalar: blanks, then end of line / input, a comment (after a blank), in a flow
-   collection one of , ] } and a colon (a key: in block context only when the scalar is on one line) *)
-Definition quoted_follower_ok (flow multi : bool) (rest : list N) : bool :=
-  let r := drop_leading rest in
-  let c := hd 0 r in
-  is_breakz c || (flow && ((c =? 44) || (c =? 93) || (c =? 125))) || ((c =? 58) && (flow || negb multi))
-  || ((c =? 35) && negb (Nat.eqb (length r) (length rest))).
-
-Definition C04_quoted_full : Prop :=
-  forall (F : nat) (single : bool) (n : nat) (first : list dq_item) (more : list (brk_layout * list dq_item))
-         (rest : list N) (s : sc strin),
-    (if single then sq_layout_wf n first more else dq_layout_wf n first more) = true ->
-    let src := if single then sq_render first more else dq_render first more in
-    si_chars (sc_in s) = quote_of single :: src ++ quote_of single :: rest ->
-    (single = true -> (nth 0 rest 0 =? 39) = false) ->
-    quoted_follower_ok (0 <? sc_flow_level s) (match more with [] => false | _ => true end) rest = true ->
-    (sc_indent s < Z.of_nat n)%Z ->                               (* continuation lines are indented deeper than the block *)
-    (sc_indent s <= Z.of_N (m_col (sc_mark s)) + 1)%Z ->
-    (m_col (sc_mark s) <> 0 \/ more = [])%type ->                 (* (a quote in column 0 is followed by no document marker) *)
-    (2 * length src + 10 <= F)%nat ->
-    exists sp s',
-      scan_flow_scalar str_ops F single s = Ok ((sp, TScalar (style_of single) (dq_text first more)), s')
-      /\ sp_start sp = sc_mark s.
-
-(* what ends a plain scalar: end of input; a break followed by nothing or by a line that is not indented deeper
-   than the enclosing block; a comment after a blank; in a flow collection , ] }; a colon + blank *)
-Definition plain_follower_ok (flow : bool) (indent : Z) (rest : list N) : bool :=
-  let r := drop_leading rest in
-  match r with
-  | [] => true
-  | c :: r' =>
-      (is_break c && match r' with
-                     | [] => true
-                     | _ => (Z.of_nat (leading_spaces r') <=? indent)%Z
-                            && negb (is_blank_or_breakz (nth (leading_spaces r') r' 0))
-                     end)
-      || ((c =? 35) && negb (Nat.eqb (length r) (length rest)))
-      || (flow && c_flow_indicator c)
-      || ((c =? 58) && (is_sp (hd 0 r') || is_breakz (hd 0 r') || (flow && c_flow_indicator (hd 0 r'))))
-  end.
-
-Definition C04_plain_full : Prop :=
-  forall (F n : nat) (first : list N) (more : list (brk_layout * list N)) (rest : list N) (s : sc strin),
-    plain_layout_wf (0 <? sc_flow_level s) n first more = true ->
-    si_chars (sc_in s) = plain_render first more ++ rest ->
-    plain_follower_ok (0 <? sc_flow_level s) (sc_indent s) rest = true ->
-    (sc_indent s < Z.of_nat n)%Z ->
-    (sc_indent s < Z.of_N (m_col (sc_mark s)))%Z ->
-    (2 * length (plain_render first more) + 10 <= F)%nat ->
-    exists sp s',
-      scan_plain_scalar str_ops F s = Ok ((sp, TScalar Plain (plain_text first more)), s')
-      /\ sp_start sp = sc_mark s.
-
-(* The plain half is FALSE for the current code: an indented continuation line that reads `---` ends the scalar
-   (scan_plain_scalar tests next_is_document_indicator whenever only blanks were seen since the last break,
-   whatever the column).  Witness: the two lines  a / _---  (n = 1). *)
-Definition plain_refutation_first : list N := [97].
-Definition plain_refutation_more : list (brk_layout * list N) :=
-  [({| bl_escaped := false; bl_pad := []; bl_empties := []; bl_indent := [32] |}, [45; 45; 45])].
-
-Lemma C04_plain_full_is_false : ~ C04_plain_full.
-Proof.
-  intros H.
-  specialize (H 40%nat 1%nat plain_refutation_first plain_refutation_more [10]
-                (init_sc {| si_chars := [97; 10; 32; 45; 45; 45; 10]; si_look := 0 |})).
-  destruct H as [sp [s' [E _]]]; try (vm_compute; reflexivity); try (vm_compute; congruence).
-  - cbn. lia.
-  - vm_compute in E. discriminate E.
-Qed.
-
 (* scalar events of a pipeline run (for the examples) *)
 Definition scalars_of (r : list (event * span) * pend) : list (style * list N) * bool :=
   (flat_map (fun e => match fst e with EScalar v st _ _ => [(st, v)] | _ => [] end) (fst r),
